@@ -97,7 +97,10 @@ ProgsCut ==
 (* ------------------------------ slice: not ------------------------------ *)
 NotInner == {Call(q1(X)), Call(r1(X)), Call(t1(X)), UnifyG(X, b), UnifyG(X, Y), Bip("equal", <<X, b>>),
              AndG(<<Call(q1(X)), Call(r1(X))>>), OrG(<<Call(q1(X)), Call(r1(X))>>), Bip("less_than", <<X, b>>),
-             AndG(<<Call(q1(Y)), UnifyG(Y, X)>>), Call(q1(Y)), AndG(<<pr(X), Call(r1(X))>>), NotG(Call(q1(X)))}
+             AndG(<<Call(q1(Y)), UnifyG(Y, X)>>), Call(q1(Y)), AndG(<<pr(X), Call(r1(X))>>), NotG(Call(q1(X))),
+             (* a conjunction whose first goal succeeds (binding an inner variable) but which fails as a whole *)
+             AndG(<<Call(q1(X)), Call(t1(X))>>), AndG(<<Call(q1(X)), FailG>>), AndG(<<Call(q1(Y)), Call(s2(Y, Y))>>),
+             AndG(<<UnifyG(X, b), FailG>>), OrG(<<AndG(<<Call(q1(X)), FailG>>), Call(t1(X))>>)}
 NotBodies ==
        {NotG(g) : g \in NotInner}
   \cup {AndG(<<l, NotG(g)>>) : l \in {Call(q1(X)), Call(r1(X)), UnifyG(X, c)}, g \in NotInner}
@@ -125,6 +128,22 @@ PrintsSome(bd) == \E i \in DOMAIN bd.gs : IsPrint(bd.gs[i]) \/
 ProgsPrint ==
     PQS({BaseFacts \o <<Clause(p1(X), bd), Clause(p1(X), AndG(<<Call(r1(X)), pr(Atom("!"))>>))>> :
               bd \in {bd2 \in PrintBodies : PrintsSome(bd2)}}, {p1(Z)})
+
+(* ------------------------------ slice: time ----------------------------- *)
+(* time(G): G is asked once; the elapsed time is written; a time(...) to the   *)
+(* right of a multi-answer goal runs again for every answer of that goal       *)
+TimeInner == {Call(q1(X)), Call(r1(X)), Call(t1(X)), UnifyG(X, b), FailG, AndG(<<Call(q1(X)), Call(r1(X))>>),
+              OrG(<<Call(q1(X)), Call(r1(X))>>), AndG(<<pr(X), Call(r1(X))>>), AndG(<<Call(q1(X)), pr(X), FailG>>), NotG(Call(q1(X)))}
+TimeBodies ==
+       {TimeG(g) : g \in TimeInner}
+  \cup {AndG(<<l, TimeG(g)>>) : l \in {Call(q1(X)), Call(r1(Y)), UnifyG(X, c)}, g \in TimeInner}
+  \cup {AndG(<<TimeG(g), l>>) : l \in {Call(r1(X)), pr(X), FailG}, g \in TimeInner}
+  \cup {OrG(<<TimeG(g), l>>) : l \in {Call(r1(X))}, g \in TimeInner}
+  \cup {NotG(TimeG(g)) : g \in {Call(q1(X)), FailG}}
+  \cup {TimeG(TimeG(g)) : g \in {Call(q1(X)), FailG}}
+ProgsTime ==
+       PQS({BaseFacts \o <<Clause(p1(X), bd)>> : bd \in TimeBodies}, {p1(Z), p1(a), p1(c)})
+  \cup PQS({BaseFacts \o <<Clause(p1(X), bd), Fact(p1(c))>> : bd \in TimeBodies}, {p1(Z)})
 
 (* ------------------------------ slice: lists / recursion ---------------- *)
 H == V("$H")  T_ == V("$T")  L == V("$L")  N == V("$N")  M == V("$M")  R_ == V("$R")
@@ -179,6 +198,7 @@ ProgQueries == CASE Slice = "andor" -> ProgsAndOr
                  [] Slice = "cut"   -> ProgsCut
                  [] Slice = "not"   -> ProgsNot
                  [] Slice = "print" -> ProgsPrint
+                 [] Slice = "time"  -> ProgsTime
                  [] Slice = "lists" -> ProgsLists
                  [] Slice = "alias" -> ProgsAlias
 
